@@ -3,7 +3,7 @@ import SaModel.Props.C10Front
 /-
 C10 — ArrayBuilder: each build returns exactly the rows pushed since the last one.
 
-A history is any sequence of `push r` / `extend rs` / `build` operations on one `ArrayBuilder`.
+A history is any sequence of `push r` / `extend rs` / `viaSerializer rs` / `build` operations on one `ArrayBuilder`.
 * `take_is_fresh`: after ANY history the builder that `take` leaves behind is literally the builder
   `OuterSequenceBuilder::new(schema)` returned (paths, validity presence, offsets `[0]`, empty name cache, struct
   `next/seen`, union `current_offset`, dictionary index — equality of model states).  No invariant needed.
@@ -22,6 +22,8 @@ inductive Op where
   | push (x : SVal)
   /-- `ArrayBuilder::extend(&records)` -/
   | extend (x : SVal)
+  /-- `records.serialize(Serializer::new(&mut builder))` (serializer.rs) -/
+  | viaSerializer (x : SVal)
   /-- `build_arrays` / `to_arrow` / `to_record_batch` … -/
   | build
 
@@ -33,6 +35,9 @@ def run (ext : Ext) : B → List Op → R (List (B × List Arr) × B)
     run ext r ops
   | root, .extend x :: ops => do
     let r ← extend ext root x
+    run ext r ops
+  | root, .viaSerializer x :: ops => do
+    let r ← serializeWith ext root x
     run ext r ops
   | root, .build :: ops => do
     let (arrs, rest) ← buildArrays ext root
@@ -48,9 +53,21 @@ def extRows : SVal → Option (List SVal)
   | .tupleStruct _ xs => some xs.toList
   | _ => none
 
+/-- the records a `Serializer` argument denotes (a sequence / tuple / tuple struct / tuple variant behind newtype
+struct / newtype variant layers) -/
+def serRows : SVal → Option (List SVal)
+  | .newtypeStruct _ v => serRows v
+  | .newtypeVariant _ _ _ v => serRows v
+  | .seq xs => some xs.toList
+  | .tuple xs => some xs.toList
+  | .tupleStruct _ xs => some xs.toList
+  | .tupleVariant _ _ _ xs => some xs.toList
+  | _ => none
+
 def Op.rows : Op → List SVal
   | .push x => [x]
   | .extend x => (extRows x).getD []
+  | .viaSerializer x => (serRows x).getD []
   | .build => []
 
 /-- the batches of a history: the rows added between consecutive builds (`pending`: rows added so far since
@@ -60,6 +77,7 @@ def batchesFrom (pending : List SVal) : List Op → List (List SVal)
   | .build :: ops => pending :: batchesFrom [] ops
   | .push x :: ops => batchesFrom (pending ++ [x]) ops
   | .extend x :: ops => batchesFrom (pending ++ (extRows x).getD []) ops
+  | .viaSerializer x :: ops => batchesFrom (pending ++ (serRows x).getD []) ops
 
 /-! ### `take` -/
 
@@ -105,6 +123,34 @@ theorem extend_spec (ext : Ext) : ∀ (x : SVal) (p : String) (len : Nat) (fs : 
   | .newtypeVariant _ _ _ _, _, _, _, _, _, _, _, h => by simp [extend, ctx_ok, notSupported, fail] at h
   | .tupleVariant _ _ _ _, _, _, _, _, _, _, _, h => by simp [extend, ctx_ok, notSupported, fail] at h
   | .structVariant _ _ _ _, _, _, _, _, _, _, _, h => by simp [extend, ctx_ok, notSupported, fail] at h
+
+/-- the `Serializer` front end is a fold of `push` over the denoted records (any root) -/
+theorem serializeWith_spec (ext : Ext) : ∀ (x : SVal) (root r : B), serializeWith ext root x = .ok r →
+    ∃ rows, serRows x = some rows ∧ rows.foldlM (push ext) root = .ok r
+  | .newtypeStruct _ v, root, r, h => by
+    simp only [serializeWith] at h; simpa [serRows] using serializeWith_spec ext v root r h
+  | .newtypeVariant _ _ _ v, root, r, h => by
+    simp only [serializeWith] at h; simpa [serRows] using serializeWith_spec ext v root r h
+  | .seq xs, root, r, h => by simp only [serializeWith, pushAll_eq_foldlM] at h; exact ⟨_, rfl, h⟩
+  | .tuple xs, root, r, h => by simp only [serializeWith, pushAll_eq_foldlM] at h; exact ⟨_, rfl, h⟩
+  | .tupleStruct _ xs, root, r, h => by simp only [serializeWith, pushAll_eq_foldlM] at h; exact ⟨_, rfl, h⟩
+  | .tupleVariant _ _ _ xs, root, r, h => by simp only [serializeWith, pushAll_eq_foldlM] at h; exact ⟨_, rfl, h⟩
+  | .none, _, _, h => by simp [serializeWith, fail] at h
+  | .unit, _, _, h => by simp [serializeWith, fail] at h
+  | .some _, _, _, h => by simp [serializeWith, fail] at h
+  | .bool _, _, _, h => by simp [serializeWith, fail] at h
+  | .int _ _, _, _, h => by simp [serializeWith, fail] at h
+  | .f32 _, _, _, h => by simp [serializeWith, fail] at h
+  | .f64 _, _, _, h => by simp [serializeWith, fail] at h
+  | .char _, _, _, h => by simp [serializeWith, fail] at h
+  | .str _, _, _, h => by simp [serializeWith, fail] at h
+  | .bytes _, _, _, h => by simp [serializeWith, fail] at h
+  | .unitStruct _, _, _, h => by simp [serializeWith, fail] at h
+  | .record _ _, _, _, h => by simp [serializeWith, fail] at h
+  | .map _, _, _, h => by simp [serializeWith, fail] at h
+  | .mapRaw _, _, _, h => by simp [serializeWith, fail] at h
+  | .unitVariant _ _ _, _, _, h => by simp [serializeWith, fail] at h
+  | .structVariant _ _ _ _, _, _, h => by simp [serializeWith, fail] at h
 
 theorem foldlM_push_takeRest (ext : Ext) : ∀ (rows : List SVal) (b b' : B),
     rows.foldlM (push ext) b = .ok b' → takeRest b' = takeRest b
@@ -159,6 +205,11 @@ theorem take_is_fresh (ext : Ext) (fields : List Field) (r0 : B) (h0 : newRoot f
     obtain ⟨rows, _, hf⟩ := extend_spec ext x _ _ _ _ _ _ r h1
     exact take_is_fresh ext fields _ h0 ops r outs fin
       (by rw [foldlM_push_takeRest ext rows _ r hf, ← hroot, ht]) h'
+  | .viaSerializer x :: ops, root, outs, fin, ht, h => by
+    simp only [run] at h
+    obtain ⟨r, h1, h'⟩ := (bind_ok _ _ _).1 h
+    obtain ⟨rows, _, hf⟩ := serializeWith_spec ext x root r h1
+    exact take_is_fresh ext fields r0 h0 ops r outs fin (by rw [foldlM_push_takeRest ext rows _ r hf, ht]) h'
   | .build :: ops, root, outs, fin, ht, h => by
     simp only [run] at h
     obtain ⟨⟨arrs, rest⟩, h1, h⟩ := (bind_ok _ _ _).1 h
@@ -243,6 +294,16 @@ theorem batches_gen (fields : List Field) (h0 : newRoot fields = .ok r0) (hsafe 
     have := holds_fold ext r0 Q okx hokraw hstep rows hh hx hf
     simp only [batchesFrom, hrows, Option.getD_some]
     exact batches_gen fields h0 hsafe ops r _ outs fin this (fun op hop => hraw op (by simp [hop])) h'
+  | .viaSerializer x :: ops, root, pending, outs, fin, hh, hraw, h => by
+    simp only [run] at h
+    obtain ⟨r, h1, h'⟩ := (bind_ok _ _ _).1 h
+    obtain ⟨rows, hrows, hf⟩ := serializeWith_spec ext x root r h1
+    have hx : ∀ y ∈ rows, okx y := by
+      intro y hy
+      exact hraw (.viaSerializer x) (by simp) y (by simp [Op.rows, hrows, hy])
+    have := holds_fold ext r0 Q okx hokraw hstep rows hh hx hf
+    simp only [batchesFrom, hrows, Option.getD_some]
+    exact batches_gen fields h0 hsafe ops r _ outs fin this (fun op hop => hraw op (by simp [hop])) h'
   | .build :: ops, root, pending, outs, fin, hh, hraw, h => by
     simp only [run] at h
     obtain ⟨⟨arrs, rest⟩, h1, h⟩ := (bind_ok _ _ _).1 h
@@ -312,9 +373,9 @@ example : (do
       let r0 ← newRoot [.mk "d" (.dictionary .uint8 .utf8) false []]
       let (outs, _) ← run {} r0 [.push (.record "R" (.cons "d" 0 (.str "x") .nil)), .build,
         .extend (.seq (.cons (.record "R" (.cons "d" 0 (.str "y") .nil)) (.cons (.record "R" (.cons "d" 0 (.str "y") .nil)) .nil))),
-        .build, .build]
+        .build, .build, .viaSerializer (.tuple (.cons (.record "R" (.cons "d" 0 (.str "z") .nil)) .nil)), .build]
       pure (outs.map fun o => decRoot o.1) : R (List (List (List LVal)))) =
-    .ok [[[.str [120]]], [[.str [121], .str [121]]], [[]]] := by decide +kernel
+    .ok [[[.str [120]]], [[.str [121], .str [121]]], [[]], [[.str [122]]]] := by decide +kernel
 
 example : batchesFrom [] [Op.push .unit, .build, .extend (.seq (.cons .none (.cons .unit .nil))), .build, .build] =
     [[.unit], [.none, .unit], []] := by decide
